@@ -35,6 +35,7 @@ func Not(a bool) bool                              { sym(); return false }
 func Iff(a, b bool) bool                           { sym(); return false }
 func Eq(a, b interface{}) bool                     { sym(); return false }
 func EqLoose(a, b interface{}) bool                { sym(); return false }
+func NoLeak(label string, out interface{}, secrets ...interface{}) { sym() }
 func BytesEq(a, b []byte) bool                     { sym(); return false }
 func StrEq(a, b string) bool                       { sym(); return false }
 func IteInt(c bool, a, b int) int                  { sym(); return 0 }
